@@ -669,9 +669,14 @@ class NUMERIC(FieldType):
     def index(self, num, **kwargs):
         # If the user gave us a list of numbers, recurse on the list
         if isinstance(num, (list, tuple)):
+            # Numbers that fall in the same lower-precision bucket share terms;
+            # a document must be posted only once per term
+            seen = set()
             for n in num:
                 for item in self.index(n):
-                    yield item
+                    if item[0] not in seen:
+                        seen.add(item[0])
+                        yield item
             return
 
         # word, freq, weight, valuestring
